@@ -1034,10 +1034,3 @@ Lemma dead_rejected : forall s e, alive s e = false ->
 Proof. exact sb1_dead_rejected. Qed.
 
 (** ** Assumption audit (sb1): only not-yet-proved StorageA lemmas may appear *)
-Print Assumptions create_entity_spec.
-Print Assumptions new_entity_spec.
-Print Assumptions dead_rejected.
-Print Assumptions copy_entity_spec_partial.
-Print Assumptions copy_entity_spec_partial_obs.
-Print Assumptions sb1_copy_entity_spec_counterexample.
-Print Assumptions sb1_copy_entity_obs_counterexample.
